@@ -114,6 +114,32 @@ add('C10', 'exploration',
     'Token depth from the derivation; lines ending inside multi-line tokens exempt.',
     'DESIGN.md 3/C10')
 
+add('C01', 'model_checking',
+    'exhaustive enumeration of the dialect program space incl. a witness for every grammar-adjacent terminal pair x every '
+    'legal separator x 3 configurations through the real token minifier, whose state machine is observed on the real object '
+    '(states / transitions visited); output judged by the reference lexer; CLI batch through luamin and build --lua-minify',
+    'Every adjacent token-class pair the grammar allows is minified under every separator; token identity (numbers by value, '
+    'strings by decoded bytes), line-scope extents, comment containment and token count checked on every case.',
+    'Reference lexer; identifiers compared by kind (mapping properties are C02); newlines outside line scopes not compared.',
+    'DESIGN.md 3/C01')
+
+add('C19', 'model_checking',
+    'exhaustive enumeration of header shapes (all item sequences <=4/5 over 8 item kinds x 3 followers) through the real '
+    'token minifier with state-machine observation; first two leading comments located by the reference lexer',
+    'Every header shape: first two comments verbatim at the top on own lines, title/byline preserved when derived from '
+    'them, token oracle of C01 for the rest.',
+    'Comments identified by the reference lexer; LF or CRLF accepted after a header comment.',
+    'DESIGN.md 3/C19')
+
+add('C02', 'model_checking',
+    'explicit-state BFS over get_short_name call sequences on the real MinifyNameFactory for all 64 keep-files x keep_all, '
+    'against a dict/sets reference model; exhaustive short-name id range; 20 000-name allocation run; identifier alignment '
+    'on the generated program space under 3 configurations',
+    'All call histories to depth 5/6 over a colliding 13-name alphabet with the invariant (function, injective, kept names '
+    'fixed, nothing generated is reserved/kept) checked after every transition; all ids < 26^3+26^2 (26^4) distinct [a-z]+.',
+    'Frozen snapshot of the documented API names; reference model.',
+    'DESIGN.md 3/C02')
+
 PENDING = {
 }
 
